@@ -192,7 +192,7 @@ func within(o types.Object, n ast.Node) bool {
 	return o != nil && n.Pos() <= o.Pos() && o.Pos() < n.End()
 }
 
-func assignsTo(info *types.Info, n ast.Node, v types.Object) (*ast.AssignStmt, ast.Expr) {
+func AssignsTo(info *types.Info, n ast.Node, v types.Object) (*ast.AssignStmt, ast.Expr) {
 	as, ok := n.(*ast.AssignStmt)
 	if !ok {
 		return nil, nil
@@ -235,7 +235,23 @@ func ReachBlock(g *cfgq.Graph, from cfgq.Point, after bool, avoid func(ast.Node)
 	return hit
 }
 
-func isNode(t ast.Node) func(ast.Node) bool { return func(n ast.Node) bool { return n == t } }
+// ReachBlock2 is ReachBlock with an additional edge cut.
+func ReachBlock2(g *cfgq.Graph, from cfgq.Point, avoid func(ast.Node) bool, avoidEdge func(*cfg.Block, int) bool, to *cfg.Block) bool {
+	hit := false
+	g.Path(cfgq.Query{From: from, Avoid: avoid, AvoidEdge: func(b *cfg.Block, s int) bool {
+		if avoidEdge != nil && avoidEdge(b, s) {
+			return true
+		}
+		if b.Succs[s] == to {
+			hit = true
+			return true
+		}
+		return false
+	}})
+	return hit
+}
+
+func IsNode(t ast.Node) func(ast.Node) bool { return func(n ast.Node) bool { return n == t } }
 
 func worker(c *core.Ctx, fn *core.Fn, short string, w *ast.FuncLit, rs *ast.RangeStmt) {
 	info := fn.Pkg.TypesInfo
@@ -328,7 +344,7 @@ func worker(c *core.Ctx, fn *core.Fn, short string, w *ast.FuncLit, rs *ast.Rang
 		c.Check("R2.init", short, tracker.Pos(), v == 0,
 			fmt.Sprintf("the tracker must start at 0, the database of a fresh connection; it starts at %d, so the first entries of db %d are restored into db 0 without SELECT", v, v))
 	}
-	isAssign := func(n ast.Node) bool { as, _ := assignsTo(info, n, tracker); return as != nil }
+	isAssign := func(n ast.Node) bool { as, _ := AssignsTo(info, n, tracker); return as != nil }
 	isSelect := func(n ast.Node) bool {
 		for _, call := range cfgq.ExecCalls(n) {
 			if isCommon(core.CalleeFunc(info, call), "SelectDB") {
@@ -339,10 +355,10 @@ func worker(c *core.Ctx, fn *core.Fn, short string, w *ast.FuncLit, rs *ast.Rang
 	}
 	cutHead := func(b *cfg.Block, s int) bool { return b.Succs[s] == head }
 	connected := func(a, b cfgq.Point) bool { // within one iteration
-		return g.Path(cfgq.Query{From: a, After: true, Target: isNode(b.Node()), AvoidEdge: cutHead}) != nil ||
-			g.Path(cfgq.Query{From: b, After: true, Target: isNode(a.Node()), AvoidEdge: cutHead}) != nil
+		return g.Path(cfgq.Query{From: a, After: true, Target: IsNode(b.Node()), AvoidEdge: cutHead}) != nil ||
+			g.Path(cfgq.Query{From: b, After: true, Target: IsNode(a.Node()), AvoidEdge: cutHead}) != nil
 	}
-	assigns := g.Points(func(n ast.Node) bool { return isAssign(n) && within2(n, rs.Body) })
+	assigns := g.Points(func(n ast.Node) bool { return isAssign(n) && Within(n, rs.Body) })
 	// R2.pair / R2.source per select site
 	for _, call := range selects {
 		sp, ok := g.Find(call)
@@ -362,7 +378,7 @@ func worker(c *core.Ctx, fn *core.Fn, short string, w *ast.FuncLit, rs *ast.Rang
 			if !connected(ap, sp) {
 				continue
 			}
-			_, rhs := assignsTo(info, ap.Node(), tracker)
+			_, rhs := AssignsTo(info, ap.Node(), tracker)
 			if rhs == nil {
 				continue
 			}
@@ -370,7 +386,7 @@ func worker(c *core.Ctx, fn *core.Fn, short string, w *ast.FuncLit, rs *ast.Rang
 			paired++
 			if argIsTracker {
 				src = rhs
-				if g.Path(cfgq.Query{From: ap, After: true, Target: isNode(sp.Node()), AvoidEdge: cutHead}) == nil {
+				if g.Path(cfgq.Query{From: ap, After: true, Target: IsNode(sp.Node()), AvoidEdge: cutHead}) == nil {
 					late = true
 				}
 			} else if !pat.Same(info, rhs, arg) {
@@ -402,7 +418,7 @@ func worker(c *core.Ctx, fn *core.Fn, short string, w *ast.FuncLit, rs *ast.Rang
 			c.Undecidedf("R2.pair", key, call.Pos(), "%s; values not recognised", mismatch)
 		default:
 			// every iteration path through the select also records
-			before := g.Path(cfgq.Query{From: cfgq.Point{B: bodyBlk}, Avoid: isAssign, Target: isNode(sp.Node())})
+			before := g.Path(cfgq.Query{From: cfgq.Point{B: bodyBlk}, Avoid: isAssign, Target: IsNode(sp.Node())})
 			after := ReachBlock(g, sp, true, isAssign, head)
 			c.Check("R2.pair", key, call.Pos(), !(before != nil && after),
 				"some path through SelectDB does not record the selected db in the tracker (see above for the mis-restored key)", before...)
@@ -424,7 +440,7 @@ func worker(c *core.Ctx, fn *core.Fn, short string, w *ast.FuncLit, rs *ast.Rang
 				n++
 			}
 		}
-		_, rhs := assignsTo(info, ap.Node(), tracker)
+		_, rhs := AssignsTo(info, ap.Node(), tracker)
 		rname := "?"
 		if rhs != nil && sourceName(info, rhs, entry) != "" {
 			rname = sourceName(info, rhs, entry)
@@ -459,7 +475,7 @@ func worker(c *core.Ctx, fn *core.Fn, short string, w *ast.FuncLit, rs *ast.Rang
 		okConn := len(call.Args) == 2 && core.ObjOf(info, call.Args[0]) == conn
 		okEntry := len(call.Args) == 2 && core.ObjOf(info, call.Args[1]) == entry
 		c.Check("R2.conn", short+"/restore", call.Pos(), okConn && okEntry, "RestoreRdbEntry must be given the worker's own connection (the one SELECT was sent on) and the entry taken from the channel")
-		wpath := g.Path(cfgq.Query{From: cfgq.Point{B: bodyBlk}, Avoid: isSelect, AvoidEdge: equal, Target: isNode(rp.Node())})
+		wpath := g.Path(cfgq.Query{From: cfgq.Point{B: bodyBlk}, Avoid: isSelect, AvoidEdge: equal, Target: IsNode(rp.Node())})
 		c.Check("R2.reach", short+"/RestoreRdbEntry", call.Pos(), wpath == nil,
 			"the restore call is reachable in an iteration without SelectDB and without having found the tracker equal to the wanted database: the entry is restored into whatever database the connection was left on", wpath...)
 	}
@@ -504,7 +520,7 @@ func worker(c *core.Ctx, fn *core.Fn, short string, w *ast.FuncLit, rs *ast.Rang
 	}
 }
 
-func within2(n, outer ast.Node) bool { return outer.Pos() <= n.Pos() && n.End() <= outer.End() }
+func Within(n, outer ast.Node) bool { return outer.Pos() <= n.Pos() && n.End() <= outer.End() }
 
 // cmpSource: e is `X ==/!= tracker` with X TargetDB or entry.DB; returns the source name.
 func cmpSource(info *types.Info, e ast.Expr, tracker, entry types.Object) string {
@@ -548,8 +564,8 @@ func initConst(info *types.Info, body ast.Node, v types.Object) (int64, bool) {
 	return val, found
 }
 
-// methodCallOn reports whether executing n calls (or defers) a method on obj.
-func methodCallOn(info *types.Info, n ast.Node, obj types.Object, name string) bool {
+// MethodCallOn reports whether executing n calls (or defers) a method on obj.
+func MethodCallOn(info *types.Info, n ast.Node, obj types.Object, name string) bool {
 	calls := cfgq.ExecCalls(n)
 	switch s := n.(type) {
 	case *ast.DeferStmt:
@@ -566,7 +582,7 @@ func methodCallOn(info *types.Info, n ast.Node, obj types.Object, name string) b
 	return false
 }
 
-func builtinCallOn(info *types.Info, n ast.Node, name string, obj types.Object) bool {
+func BuiltinCallOn(info *types.Info, n ast.Node, name string, obj types.Object) bool {
 	calls := cfgq.ExecCalls(n)
 	if d, ok := n.(*ast.DeferStmt); ok {
 		calls = append(calls, d.Call)
@@ -610,7 +626,7 @@ func completion(c *core.Ctx, fn *core.Fn, short string, w *ast.FuncLit, g *cfgq.
 		}
 		return
 	}
-	done := func(n ast.Node) bool { return methodCallOn(info, n, wg, "Done") }
+	done := func(n ast.Node) bool { return MethodCallOn(info, n, wg, "Done") }
 	ok, wp := MustPass(g, g.Entry(), false, done)
 	c.Check("R3.done", short, w.Pos(), ok,
 		"every path through the worker must signal wg.Done() (normally by defer): otherwise wg.Wait() blocks forever and "+short+" never returns although all entries were processed", wp...)
@@ -622,7 +638,7 @@ func completion(c *core.Ctx, fn *core.Fn, short string, w *ast.FuncLit, g *cfgq.
 	switch {
 	case len(adds) != 1 || spawnLoop == nil:
 		c.Undecidedf("R3.add", short, goStmt.Pos(), "expected one wg.Add and a counted spawn loop, found %d Add call(s)", len(adds))
-	case within2(adds[0], spawnLoop.Body):
+	case Within(adds[0], spawnLoop.Body):
 		v, isC := core.IntConst(info, adds[0].Args[0])
 		c.Check("R3.add", short, adds[0].Pos(), isC && v == 1, "wg.Add inside the spawn loop must add exactly 1 per worker")
 	default:
@@ -663,8 +679,8 @@ func completion(c *core.Ctx, fn *core.Fn, short string, w *ast.FuncLit, g *cfgq.
 		c.Undecidedf("R3.close-after-wait", short, lit.Pos(), "expected exactly one close(<done channel>) in the supervising goroutine, found %d", nclose)
 		return
 	}
-	isWait := func(n ast.Node) bool { return methodCallOn(info, n, wg, "Wait") && !isDefer(n) }
-	isClose := func(n ast.Node) bool { return builtinCallOn(info, n, "close", wait) }
+	isWait := func(n ast.Node) bool { return MethodCallOn(info, n, wg, "Wait") && !isDefer(n) }
+	isClose := func(n ast.Node) bool { return BuiltinCallOn(info, n, "close", wait) }
 	okAll, wAll := MustPass(ge, ge.Entry(), false, isClose)
 	c.Check("R3.close-always", short, lit.Pos(), okAll, "the supervising goroutine must close the done channel on every path, or "+short+" never returns", wAll...)
 	okOrder := true
@@ -792,7 +808,7 @@ func WaitLoop(c *core.Ctx, rule, key string, g *cfgq.Graph, body *ast.BlockStmt,
 		var at ast.Node
 		switch x := n.(type) {
 		case *ast.AssignStmt:
-			if as, r := assignsTo(info, x, flag); as != nil {
+			if as, r := AssignsTo(info, x, flag); as != nil {
 				rhs, at = r, as
 			}
 		case *ast.ValueSpec:
@@ -818,11 +834,11 @@ func WaitLoop(c *core.Ctx, rule, key string, g *cfgq.Graph, body *ast.BlockStmt,
 			return true
 		}
 		p, ok := g.Find(at)
-		if !ok || !within2(at, loop.Body) {
+		if !ok || !Within(at, loop.Body) {
 			bad = fmt.Sprintf("`%s` outside the waiting loop's body", c.Src(at))
 			return true
 		}
-		if w := g.Path(cfgq.Query{From: cfgq.Point{B: loopBody}, Avoid: avoid, AvoidEdge: armEdge, Target: isNode(p.Node())}); w != nil {
+		if w := g.Path(cfgq.Query{From: cfgq.Point{B: loopBody}, Avoid: avoid, AvoidEdge: armEdge, Target: IsNode(p.Node())}); w != nil {
 			bad, wit = fmt.Sprintf("`%s` is reachable in an iteration that did not receive from the done channel", c.Src(at)), w
 		}
 		return true
@@ -833,7 +849,7 @@ func WaitLoop(c *core.Ctx, rule, key string, g *cfgq.Graph, body *ast.BlockStmt,
 	}
 	if bad == "" {
 		// other ways out of the loop: break / return / goto not preceded by the receive
-		isCond := isNode(loop.Cond)
+		isCond := IsNode(loop.Cond)
 		var done *cfg.Block
 		for _, b := range g.CFG.Blocks {
 			if b.Kind == cfg.KindForDone && b.Stmt == ast.Stmt(loop) {
@@ -857,7 +873,7 @@ func WaitLoop(c *core.Ctx, rule, key string, g *cfgq.Graph, body *ast.BlockStmt,
 		}
 	}
 	if bad == "" {
-		if ok, w := MustPass(g, g.Entry(), false, isNode(loop.Cond)); !ok {
+		if ok, w := MustPass(g, g.Entry(), false, IsNode(loop.Cond)); !ok {
 			bad, wit = "a return is reachable without going through the waiting loop", w
 		}
 	}
@@ -891,7 +907,7 @@ func propagate(c *core.Ctx, fn *core.Fn, short string, v types.Object) {
 		return
 	}
 	// a nil return must have gone through the scan of the slice
-	w := g.Path(cfgq.Query{From: g.Entry(), Avoid: isNode(rng.X), TargetExit: func(b *cfg.Block, k cfgq.ExitKind) bool {
+	w := g.Path(cfgq.Query{From: g.Entry(), Avoid: IsNode(rng.X), TargetExit: func(b *cfg.Block, k cfgq.ExitKind) bool {
 		if k == cfgq.ExitFall {
 			return NormalExit(b, k)
 		}
@@ -914,7 +930,7 @@ func nilDeref(c *core.Ctx, g *cfgq.Graph, info *types.Info, as *ast.AssignStmt, 
 	if !ok {
 		return ""
 	}
-	deref := func(n ast.Node) bool { return methodCallOn(info, n, conn, "") }
+	deref := func(n ast.Node) bool { return MethodCallOn(info, n, conn, "") }
 	w := g.Path(cfgq.Query{From: p, After: true, Avoid: deref, TargetExit: NormalExit,
 		Target: func(n ast.Node) bool { return !deref(n) && core.Mentions(info, n, conn) }})
 	if w != nil {
@@ -996,7 +1012,7 @@ func EdgeFact(g *cfgq.Graph, b *cfg.Block, succ int, match func(cfgq.Fact) bool)
 	return false
 }
 
-func nilCmp(info *types.Info, f cfgq.Fact, err types.Object) (nonNil, isCmp bool) {
+func NilCmp(info *types.Info, f cfgq.Fact, err types.Object) (nonNil, isCmp bool) {
 	be, ok := ast.Unparen(f.Expr).(*ast.BinaryExpr)
 	if !ok || be.Op != token.NEQ && be.Op != token.EQL {
 		return false, false
@@ -1033,7 +1049,7 @@ func ErrCheck(c *core.Ctx, g *cfgq.Graph, info *types.Info, body ast.Node, call 
 		case *ast.ParenExpr:
 			outer = x
 		case *ast.CallExpr: // conv(f()): the converter forwards the error
-			if len(x.Args) == 1 && ast.Unparen(x.Args[0]) == ast.Unparen(outer) && lastIsError(info, x) {
+			if len(x.Args) == 1 && ast.Unparen(x.Args[0]) == ast.Unparen(outer) && LastIsError(info, x) {
 				outer = x
 			} else {
 				c.Undecidedf(spec.Rule, spec.Key, call.Pos(), "result of %s is consumed by an enclosing call: not an enumerated idiom", name)
@@ -1088,7 +1104,7 @@ func ErrCheck(c *core.Ctx, g *cfgq.Graph, info *types.Info, body ast.Node, call 
 			return false
 		}
 		for _, f := range append(cfgq.Facts(e, true), cfgq.Facts(e, false)...) {
-			if _, is := nilCmp(info, f, errObj); is {
+			if _, is := NilCmp(info, f, errObj); is {
 				return true
 			}
 		}
@@ -1102,7 +1118,7 @@ func ErrCheck(c *core.Ctx, g *cfgq.Graph, info *types.Info, body ast.Node, call 
 			return false
 		}
 		fc, ok := ast.Unparen(x.Rhs[0]).(*ast.CallExpr)
-		if !ok || !lastIsError(info, fc) || len(fc.Args) == 0 || core.ObjOf(info, fc.Args[len(fc.Args)-1]) != errObj {
+		if !ok || !LastIsError(info, fc) || len(fc.Args) == 0 || core.ObjOf(info, fc.Args[len(fc.Args)-1]) != errObj {
 			return false
 		}
 		if !spec.seen[x] {
@@ -1112,7 +1128,7 @@ func ErrCheck(c *core.Ctx, g *cfgq.Graph, info *types.Info, body ast.Node, call 
 		return true
 	}
 	overwritten := func(n ast.Node) bool {
-		x, _ := assignsTo(info, n, errObj)
+		x, _ := AssignsTo(info, n, errObj)
 		return x != nil
 	}
 	w := g.Path(cfgq.Query{From: ap, After: true, Avoid: cfgq.Or(isTest, isForward), TargetExit: NormalExit,
@@ -1140,15 +1156,15 @@ func ErrCheck(c *core.Ctx, g *cfgq.Graph, info *types.Info, body ast.Node, call 
 			continue
 		}
 		// only tests reached from this call (the variable may be reused)
-		if g.Path(cfgq.Query{From: ap, After: true, Avoid: overwritten, Target: isNode(cfgq.CondOf(b))}) == nil {
+		if g.Path(cfgq.Query{From: ap, After: true, Avoid: overwritten, Target: IsNode(cfgq.CondOf(b))}) == nil {
 			continue
 		}
 		for s := range b.Succs {
-			if !EdgeFact(g, b, s, func(f cfgq.Fact) bool { nn, is := nilCmp(info, f, errObj); return is && nn }) {
+			if !EdgeFact(g, b, s, func(f cfgq.Fact) bool { nn, is := NilCmp(info, f, errObj); return is && nn }) {
 				continue
 			}
 			tested++
-			w := g.Path(cfgq.Query{From: cfgq.Point{B: b.Succs[s]}, Avoid: failure, Target: isNode(as), TargetExit: NormalExit})
+			w := g.Path(cfgq.Query{From: cfgq.Point{B: b.Succs[s]}, Avoid: failure, Target: IsNode(as), TargetExit: NormalExit})
 			if w != nil {
 				return fail(cfgq.CondOf(b).Pos(), w, "after %s failed (error non-nil) execution continues without a failure exit (no-return logger, error return, recorded worker error)", name)
 			}
@@ -1169,7 +1185,7 @@ func ErrCheck(c *core.Ctx, g *cfgq.Graph, info *types.Info, body ast.Node, call 
 	return true
 }
 
-func lastIsError(info *types.Info, call *ast.CallExpr) bool {
+func LastIsError(info *types.Info, call *ast.CallExpr) bool {
 	tv, ok := info.Types[call]
 	if !ok {
 		return false
@@ -1196,7 +1212,7 @@ func loader(c *core.Ctx, fn *core.Fn) {
 	}
 	lit := lits[0]
 	g := cfgq.OfLit(c.Program, info, lit)
-	isClose := func(n ast.Node) bool { return builtinCallOn(info, n, "close", pipe) }
+	isClose := func(n ast.Node) bool { return BuiltinCallOn(info, n, "close", pipe) }
 	ok, w := MustPass(g, g.Entry(), false, isClose)
 	c.Check("R5.close", "NewRDBLoader", lit.Pos(), ok, "the loader goroutine must close the entry channel on every return, or the workers' range loops never end and the run never finishes", w...)
 	// uses of pipe: make, send, close, return
@@ -1220,17 +1236,17 @@ func loader(c *core.Ctx, fn *core.Fn) {
 		return ok && core.ObjOf(info, s.Chan) == pipe && core.ObjOf(info, s.Value) == entry
 	}
 	nilEdge := func(b *cfg.Block, s int) bool { // the edge establishes entry == nil
-		return EdgeFact(g, b, s, func(f cfgq.Fact) bool { nn, is := nilCmp(info, f, entry); return is && !nn })
+		return EdgeFact(g, b, s, func(f cfgq.Fact) bool { nn, is := NilCmp(info, f, entry); return is && !nn })
 	}
-	w1 := g.Path(cfgq.Query{From: np, After: true, Avoid: isSend, AvoidEdge: nilEdge, Target: isNode(np.Node())})
+	w1 := g.Path(cfgq.Query{From: np, After: true, Avoid: isSend, AvoidEdge: nilEdge, Target: IsNode(np.Node())})
 	c.Check("R5.send", "NewRDBLoader/no-drop", next[0].Pos(), w1 == nil, "a parsed (non-nil) entry can be dropped: the next entry is read without sending this one to the workers, so its key is never restored", w1...)
 	okDup := true
 	var w2 []string
 	for _, sp := range sends {
-		if w2 = g.Path(cfgq.Query{From: sp, After: true, Avoid: isNode(np.Node()), Target: func(n ast.Node) bool { _, ok := n.(*ast.SendStmt); return ok }}); w2 != nil {
+		if w2 = g.Path(cfgq.Query{From: sp, After: true, Avoid: IsNode(np.Node()), Target: func(n ast.Node) bool { _, ok := n.(*ast.SendStmt); return ok }}); w2 != nil {
 			okDup = false
 		}
-		okNil, w3 := g.OnlyViaFact(sp, func(f cfgq.Fact) bool { nn, is := nilCmp(info, f, entry); return is && nn })
+		okNil, w3 := g.OnlyViaFact(sp, func(f cfgq.Fact) bool { nn, is := NilCmp(info, f, entry); return is && nn })
 		c.Check("R5.send", "NewRDBLoader/non-nil", sp.Node().Pos(), okNil && isSend(sp.Node()), "only the non-nil entry just parsed may be sent (a nil entry makes every worker dereference nil)", w3...)
 	}
 	c.Check("R5.send", "NewRDBLoader/no-dup", lit.Pos(), okDup, "an entry can be sent twice without parsing a new one: its key is restored twice", w2...)
